@@ -444,3 +444,5 @@ FINDINGS = []
 SUBS = [
     Sub("history", lambda tier: histories(tier), check_history, quick=1600, thorough=8000),
 ]
+
+RULE += ' Also: operands of earlier steps stay under observation (well-formed, contents unchanged); an adaptive operand over another range (iadd_grown); factors 2**40 / 2**70 / 2**600; subtraction of one ulp more than is there, tiny negative assignments; gap merges through an explicit axis or min_frequency.'
